@@ -85,6 +85,8 @@ class Run:
         shutil.copytree(os.path.join(REPO, "esr"), os.path.join(self.snapshot, "esr"),
                         ignore=shutil.ignore_patterns("__pycache__", "function_library", "output"))
         self.nwork = 0
+        import threading
+        self._lock = threading.Lock()
 
     # ------------------------------------------------------------------ files
     def cleanup(self):
@@ -95,8 +97,10 @@ class Run:
         return os.path.join(self.snapshot, "esr", rel)
 
     def workdir(self, tag="w"):
-        self.nwork += 1
-        d = os.path.join(self.scratch, "%s%d" % (tag, self.nwork))
+        with self._lock:
+            self.nwork += 1
+            n = self.nwork
+        d = os.path.join(self.scratch, "%s%d" % (tag, n))
         os.makedirs(d)
         return d
 
@@ -104,6 +108,7 @@ class Run:
         """A private copy of the snapshot (generation writes inside the package dir)."""
         d = self.workdir(tag)
         shutil.copytree(os.path.join(self.snapshot, "esr"), os.path.join(d, "esr"))
+        os.makedirs(os.path.join(d, "esr", "function_library"), exist_ok=True)
         return d
 
     # ---------------------------------------------------------------- harness
@@ -245,3 +250,15 @@ class Run:
         print("%s tier=%s obligations=%d discharged=%d bounded_cases=%d violations=%d known=%d wall=%.1fs" % (
             self.pid, self.tier, nob, ndis, cases, len(self.violations), len(self.known_hits), time.time() - self.t0))
         return 1 if self.violations else 0
+
+
+def harness_many(run, calls, workers=8):
+    """calls: list of (script, payload, kwargs).  Runs them concurrently (threads; each harness is
+    its own process) and returns the results in order; a CheckerError of one call is re-raised."""
+    from concurrent.futures import ThreadPoolExecutor
+    def one(c):
+        script, payload, kw = c
+        return run.harness(script, payload, **kw)
+    with ThreadPoolExecutor(max_workers=workers) as ex:
+        futs = [ex.submit(one, c) for c in calls]
+        return [f.result() for f in futs]
